@@ -284,6 +284,8 @@ class Interp:
                         continue
                     except _Break:
                         break
+                else:
+                    self.run(s.orelse)
             elif isinstance(s, ast.While):
                 while self.ev(s.test):
                     self.steps += 1
@@ -295,6 +297,8 @@ class Interp:
                         continue
                     except _Break:
                         break
+                else:
+                    self.run(s.orelse)
             elif isinstance(s, ast.Expr) and isinstance(s.value, ast.Yield):
                 yv = self.ev(s.value.value) if s.value.value is not None else None
                 self.yields.append(yv)
